@@ -929,6 +929,24 @@ fn gen_level(r: &mut Rng, codec: &str) -> String {
 }
 
 /// the k-th configuration of the full codec x cipher x mode x writer grid (covers it cyclically)
+/// `mid`: contents of 64 KiB + 1 .. 200 000 bytes handed over in ONE write() (or 65537-byte writes): a writer in
+/// the pipeline that accepts only part of a large buffer must not lose or re-encrypt the rest
+fn gen_lib_mid(r: &mut Rng, k: usize) -> String {
+    let codecs = ["store", "store", "store", "zstd", "deflate"];
+    let ciphers = [("aes", "ctr"), ("camellia", "ctr"), ("aes", "cbc"), ("none", "ctr"), ("camellia", "cbc")];
+    let writers = ["awf", "sae", "swf", "eb", "seb"];
+    let codec = codecs[(k / 25) % 5];
+    let (cipher, mode) = ciphers[k % 5];
+    let writer = writers[(k / 5) % 5];
+    let n = *r.pick(&[65537usize, 70001, 131073, 200000]);
+    let part = match r.below(3) { 0 => vec![n], 1 => vec![65537, 1], _ => vec![100000] };
+    let bufs = vec![*r.pick(&[8192usize, 65536, 100000, 17])];
+    format!(
+        "rt\t{}\t{}\t{}\t{}\t{}\t{}\t{}\t{}\t{}\t{}\t{}\t{}",
+        writer, codec, gen_level(r, codec), cipher, mode, "pbkdf2", r.below(2), n, r.below(1 << 32), 0, show_declist(&part), show_declist(&bufs)
+    )
+}
+
 fn gen_lib(r: &mut Rng, k: usize, recut: bool, big: bool) -> String {
     let codecs = ["store", "deflate", "zstd", "xz"];
     let ciphers = [("none", "ctr"), ("aes", "cbc"), ("aes", "ctr"), ("camellia", "cbc"), ("camellia", "ctr")];
@@ -955,7 +973,7 @@ fn gen_lib(r: &mut Rng, k: usize, recut: bool, big: bool) -> String {
     } else {
         gen_partition(r, n)
     };
-    let part = if big { vec![65536, 1, 4097] } else { part };
+    let part = if big { if r.chance(1, 2) { vec![65536, 1, 4097] } else { vec![n] } } else { part };
     let bufs = if big { vec![8192, 17] } else { positive(gen_bufs(r)) };
     format!(
         "{}\t{}\t{}\t{}\t{}\t{}\t{}\t{}\t{}\t{}\t{}\t{}\t{}",
@@ -996,6 +1014,11 @@ fn gen(prop: &str, tier: &str, seed: u64) -> Vec<String> {
     for _ in 0..n_recut {
         v.push(gen_lib(&mut r, k, true, false));
         k += 1;
+    }
+    // large single writes: every streaming/building writer x the CTR and CBC ciphers with store first
+    let k0 = r.below(25) as usize;
+    for i in 0..(if thorough { 125 } else { 25 }) {
+        v.push(gen_lib_mid(&mut r, k0 + i));
     }
     if thorough {
         for i in 0..6 {
